@@ -470,7 +470,7 @@ fn sweep_case(i: u64, max_gap: u64, seed: u64) -> Option<Pair> {
     let (sa, sb, signs) = if k < 4 && max_gap <= 3000 {
         (GRID_SHAPES[rng.below(6) as usize], GRID_SHAPES[rng.below(6) as usize], (k + gap) % 4)
     } else {
-        (GRID_SHAPES[(k % 6) as usize], GRID_SHAPES[((k / 6) % 6) as usize], (k / 36) % 4)
+        (GRID_SHAPES[(k % 6) as usize], GRID_SHAPES[((k / 6) % 6) as usize], (k / 36 + k % 36 + gap) % 4)
     };
     let da = gen::digits_of(&DigSpec { shape: sa, len: 1 + rng.below(24) as usize, head: vec![], seed: rng.next(), aux: rng.next() as u32 });
     let db = gen::digits_of(&DigSpec { shape: sb, len: 1 + rng.below(24) as usize, head: vec![], seed: rng.next(), aux: rng.next() as u32 });
@@ -612,7 +612,8 @@ pub fn run(ctx: &Ctx) {
     ctx.enumerated(
         "gap-sweep",
         "pair",
-        (max_gap + 1) * t.pick(4, 36 * 4),
+        // (the checked build sweeps a quarter of the thorough tier's combinations: 36 shape pairs with one sign pair each)
+        (max_gap + 1) * if ctx.flavour == "chk" { t.pick(4, 36) } else { t.pick(4, 36 * 4) },
         false,
         &format!("EVERY scale gap 0..={} (both directions) with operands of 1..24 digits; quick: 4 drawn shape pairs per gap, one for each sign pair; thorough: all 144 shape/sign combinations", max_gap),
         move |i| sweep_case(i, max_gap, seed),
